@@ -32,7 +32,7 @@ def run(ctx):
                             "c09_once_sequential", "c09_once", "c09_no_half_init", "c09_unseal_is_its_body", "c09_published",
                             "c09_published_stable", "c09_writers_keep", "c09_stale_replace_refuted"])
     gen = ctx.extract()
-    files = ["kmd/common.go", "kmd/creds.go", "kmd/c09.go", "kmd/c09pub.go", os.path.join(ctx.work, "gen", "mux_gen.go")]
+    files = ["kmd/common.go", "kmd/creds.go", "kmd/c09.go", "kmd/c09pub.go", "kmd/c09aws.go", os.path.join(ctx.work, "gen", "mux_gen.go")]
     ok, result, log = ctx.go_harness("cmd/keymasterd", "TestVerif_C09", files, timeout=1500)
     ok2, result2, log2 = ctx.go_harness("cmd/keymasterd", "TestVerif_C09Race", files, race=True, timeout=1800)
     nrace = racelog.absorb(ctx, log2, "C09")
@@ -69,6 +69,18 @@ def run(ctx):
                                  "oracle": "c09_published_stable evaluated (inside Coq) on the observed polls: after the injection answered 200, a poll at which a key that signs is not published or the own cookie is rejected",
                                  "what": "a poll after unsealing saw a signing key missing from the published sets (or the server's own fresh cookie rejected)",
                                  "case": {"round": line}, "observed": {"violating_rounds": viol}})
+            corr(ctx, res, "c09_auto_mismatches", "auto-unseal through loadVerifyConfigFile -> autoUnsealAwsLoop -> aws-sdk-go -> fake instance metadata + fake Secrets Manager: state after the loop's first attempt = Model.Seal.unseal_ca on the stored secret", idx, "auto")
+            viol = res.get("c09_auto_violating") or "[]"
+            for i in [int(x) for x in re.findall(r"\d+", viol)][:1]:
+                line = None
+                if os.path.exists(idx):
+                    for ln in open(idx):
+                        if ln.startswith("auto %d\t" % i):
+                            line = ln.strip()
+                ctx.hits.append({"key": "C09:model-oracle:auto-unseal",
+                                 "oracle": "c09_auto_unseal_only_right_pass / c09_auto_unseal_refused_unchanged evaluated (inside Coq) on the observed state after the auto-unseal attempt",
+                                 "what": "the auto-unseal path unsealed with a secret that does not decrypt and load every key file, or a failed attempt changed the state",
+                                 "case": {"case": line}, "observed": {"violating_cases": viol}})
             corr(ctx, res, "c09_route_mismatches", "every probed request on sealed / half-loaded / unsealed states: emitted artefacts and error class = Model.Seal.run_handler on the signing primitives the request reaches", idx, "route")
     ctx.assumptions = ["the service listener is started by main() only after SignerIsReady; the handler-level guarantee is what is checked here"]
     return ctx.finish("bin/build-coq; coqc Audit_Props_C09 / CasesC09 (lib/core.py); go test -overlay TestVerif_C09; go test -race -overlay TestVerif_C09Race",
